@@ -188,7 +188,32 @@ func main() {
 	cases := flag.String("cases", "", "cases ndjson (Gen_C01 + id)")
 	outPath := flag.String("out", "", "results ndjson")
 	workers := flag.Int("workers", 6, "parallel gateways")
+	entryName := flag.String("entry", "", "ad hoc: catalog entry name")
+	adhoc := flag.String("query", "", "ad hoc: GraphQL operation text to run against -entry in universe -u (prints response and exchanges)")
+	adhocVars := flag.String("vars", "{}", "ad hoc: variables JSON")
+	adhocU := flag.Int("u", 0, "ad hoc: universe index (0-based)")
 	flag.Parse()
+	if *adhoc != "" {
+		cat := readCatalog(*catalog)
+		e := cat[*entryName]
+		if e == nil {
+			must(fmt.Errorf("unknown entry %q", *entryName))
+		}
+		g, err := newEnv(e)
+		must(err)
+		g.router.SetUniverse(&e.Universes[*adhocU])
+		req := &graphql.Request{Query: *adhoc, Variables: json.RawMessage(*adhocVars)}
+		w := graphql.NewEngineResultWriter()
+		err = g.gw.Engine.Execute(context.Background(), req, &w)
+		fmt.Printf("error: %v\nresponse: %s\n", err, w.Bytes())
+		for _, x := range g.router.Take() {
+			fmt.Printf("  -> %s: %s\n     vars: %s\n     <- %s\n", x.SgName, x.Query, x.Vars, x.Resp)
+			if x.Invalid != "" {
+				fmt.Printf("     INVALID: %s\n", x.Invalid)
+			}
+		}
+		return
+	}
 	if *cal != "" {
 		b, err := os.ReadFile(*cal)
 		must(err)
